@@ -5,7 +5,8 @@ use vpcore::refs;
 use vpcore::{guard, CellDef, Out, Space};
 
 fn src_space(m: u32, es: u32) -> Space {
-    if m <= 12 {
+    let lim = if std::env::var("VERIF_TIER_T").is_ok() { 17 } else { 12 };
+    if m <= lim {
         Space::all(m)
     } else {
         Space::list32(alphabet(m, es, true), format!("A({},{},rich)", m, es))
